@@ -141,15 +141,23 @@ pub fn append_rule(rule: Arc<Rule>) -> bool {
         ),
     }
     let mut placeholder = Vec::new();
+    let rule_map = RULE_MAP.lock().unwrap();
+    let rules_of_res = match rule_map.get(&rule.resource) {
+        Some(rules_of_res) => rules_of_res,
+        // nothing to build: the rule was invalid and the resource has no other rule,
+        // or the resource's rules were cleared concurrently
+        None => return true,
+    };
     let new_tcs_of_res = build_resource_traffic_shaping_controller(
         &rule.resource,
-        RULE_MAP.lock().unwrap().get(&rule.resource).unwrap(),
+        rules_of_res,
         CONTROLLER_MAP
             .lock()
             .unwrap()
             .get_mut(&rule.resource)
             .unwrap_or(&mut placeholder),
     );
+    drop(rule_map);
     if !new_tcs_of_res.is_empty() {
         CONTROLLER_MAP
             .lock()
